@@ -17,7 +17,9 @@ CONSTS = {"quick": dict(MaxBodies=2), "thorough": dict(MaxBodies=3)}
 def unexpected_exception(ctx, res, case):
     """no fault was injected: the call must not raise (an HTTPException is the framework's way to answer and is left to the caller)"""
     from baize.exceptions import HTTPException
-    if res.exc is not None and not isinstance(res.exc, HTTPException) and not case.get("fault"):
+    if isinstance(res.exc, servers.Livelock):
+        ctx.violation(case, "the call returns", str(res.exc), "%s never returns after the client has gone (busy loop on receive)" % case["recipe"])
+    elif res.exc is not None and not isinstance(res.exc, HTTPException) and not case.get("fault"):
         ctx.violation(case, "a complete response", type(res.exc).__name__ + ": " + str(res.exc)[:120],
                       "%s raised %s although nothing failed" % (case["recipe"], type(res.exc).__name__))
 
